@@ -948,3 +948,124 @@ Proof.
   - apply (exec_ix_spec c ls s 0 s'); [rewrite H; auto | lia | rewrite H; auto].
   - apply exec_ix_complete; auto.
 Qed.
+
+(* ================================================================== *)
+(* Trace-level form of "evaluation time strictly increases": the times of the
+   LEvalBegin labels of a run, in order. *)
+Definition eval_times (ls : list label) : list Z :=
+  flat_map (fun l => match l with LEvalBegin t => [t] | _ => [] end) ls.
+
+Lemma advance_result_lb : forall c s tgt w lk brk, wfc c -> Inv c s -> ph s = PCheck tgt w lk brk ->
+  lowb s <= advance_result c s tgt w.
+Proof.
+  intros c s tgt w lk brk [Hse Hem] (HP & _) Hp. unfold phase_inv in HP. rewrite Hp in HP. destruct HP as (HA & _).
+  pose proof (adv_target_lb _ _ _ Hem HA) as (Hlb & Hte & _). destruct HA as (_ & _ & Hev & _).
+  unfold advance_result. destruct (drain_cut c s tgt w).
+  - unfold lowb, MIN_TD in *. destruct (cycles s); lia.
+  - unfold eval_time, lowb, MIN_TD in *. destruct (cycles s); lia.
+Qed.
+
+(* E: the cycle times so far, newest first *)
+Definition K (E : list Z) (s : st) : Prop :=
+  decreasing E /\ (forall t, In t E -> t <= ev s) /\ (E <> [] -> cycles s <> []) /\
+  (forall prev t', ph s = PAdv prev t' -> (forall t, In t E -> t <= prev) /\ (E <> [] -> prev < t')).
+
+Lemma K_step : forall c s l s' E, wfc c -> Inv c s -> K E s -> gstep c s l = Some s' ->
+  K (match l with LEvalBegin t => t :: E | _ => E end) s'.
+Proof.
+  intros c s l s' E Hw HI (K1 & K2 & K3 & K4) H.
+  pose proof (Inv_step _ _ _ _ Hw HI H) as HI'.
+  destruct (match l with LEvalBegin _ => true | LAdv _ => true | _ => false end) eqn:El.
+  - destruct l; try discriminate.
+    + (* LAdv *)
+      pose proof HI as (HP & HE & HC).
+      assert (exists tgt w lk brk, ph s = PCheck tgt w lk brk /\ t = advance_result c s tgt w /\
+                ph s' = PAdv (ev s) t /\ ev s' = t /\ cycles s' <> []) as (tgt & w & lk & brk & Hp & Ht & Hp' & He' & Hc').
+      { destruct s as [ev0 pend0 push0 stop0 consec0 ph0 wall0 notif0 cycles0 cut0].
+        unfold gstep in H. destruct (step c _ (LAdv t)) as [s1|] eqn:Hs; [|discriminate].
+        unfold step in Hs; simpl in Hs. destruct ph0; try discriminate.
+        match type of Hs with (if ?b then _ else _) = _ => destruct b end; [discriminate|].
+        destruct (t =? advance_result c _ tgt w) eqn:Et; inv_some Hs. inv_some H. simpl.
+        exists tgt, w, locked, brk. repeat split; auto; try lia. discriminate. }
+      pose proof (advance_result_lb _ _ _ _ _ _ Hw HI Hp) as Hlb. rewrite <- Ht in Hlb.
+      unfold K. rewrite He'. split; [exact K1|]. split; [|split].
+      * intros t0 Hin. specialize (K2 _ Hin). unfold lowb, MIN_TD in Hlb. destruct (cycles s); lia.
+      * intros _. exact Hc'.
+      * intros prev t' Hq. rewrite Hp' in Hq. injection Hq as <- <-. split; [exact K2|].
+        intros HE0. specialize (K3 HE0). unfold lowb, MIN_TD in Hlb. destruct (cycles s); [tauto|lia].
+    + (* LEvalBegin *)
+      destruct HI as (HP & HE & HC).
+      assert (exists prev, ph s = PAdv prev t /\ ev s = t /\ ev s' = t /\ ph s' = PEvalPre t /\ cycles s' = cycles s)
+        as (prev & Hp & He & He' & Hp' & Hc').
+      { destruct s as [ev0 pend0 push0 stop0 consec0 ph0 wall0 notif0 cycles0 cut0].
+        unfold gstep in H. destruct (step c _ (LEvalBegin t)) as [s1|] eqn:Hs; [|discriminate].
+        unfold step in Hs; simpl in Hs. destruct ph0; try discriminate.
+        match type of Hs with (if ?b then _ else _) = _ => destruct b end; [discriminate|].
+        destruct (t =? t0) eqn:Et; inv_some Hs. inv_some H. simpl.
+        unfold phase_inv in HP; simpl in HP. destruct HP as (Hev & _).
+        exists prev. assert (Htt : t0 = t) by lia. rewrite Htt in *. repeat split; auto; try lia. }
+      destruct (K4 _ _ Hp) as (K5 & K6).
+      unfold K. rewrite He'. split; [|split; [|split]].
+      * simpl. destruct E as [|b r]; [auto|]. split; [|exact K1].
+        assert (b <= prev) by (apply K5; left; auto). assert (prev < t) by (apply K6; discriminate). lia.
+      * intros t0 [<-|Hin]; [lia|]. specialize (K2 _ Hin). lia.
+      * intros _. rewrite Hc'. unfold phase_inv in HP. rewrite Hp in HP.
+        destruct HP as (_ & (a & rest & Hcy & _) & _). rewrite Hcy. discriminate.
+      * intros prev' t' Hq. rewrite Hp' in Hq. discriminate.
+  - (* every other label: evaluation_time and the cycle record do not change, and PAdv is not entered *)
+    assert (Hfr : ev s' = ev s /\ cycles s' = cycles s /\ (forall prev t', ph s' = PAdv prev t' -> ph s = PAdv prev t')).
+    { destruct s as [ev0 pend0 push0 stop0 consec0 ph0 wall0 notif0 cycles0 cut0].
+      unfold gstep in H. destruct (step c _ l) as [s1|] eqn:Hs; [|discriminate].
+      unfold step in Hs. destruct (is_other l) eqn:Ho.
+      - assert (s' = s1) by (simpl in H; destruct ph0; destruct l; simpl in Ho; try discriminate; inv_some H; auto).
+        subst s1. clear H.
+        destruct l; simpl in Ho; try discriminate; simpl in Hs.
+        + destruct (lock_held ph0); [discriminate|]. destruct stop0; inv_some Hs; simpl; auto.
+        + destruct (0 <? notif0); inv_some Hs; simpl. repeat split; auto. destruct ph0; simpl; auto; discriminate.
+        + destruct (lock_held ph0); [discriminate|]. inv_some Hs; simpl; auto.
+        + destruct (0 <? notif0); inv_some Hs; simpl. repeat split; auto. destruct ph0; simpl; auto; discriminate.
+      - destruct ph0; destruct l; simpl in Ho; try discriminate; simpl in El; try discriminate; simpl in Hs; try discriminate;
+        try (match type of Hs with do_req _ _ _ _ _ _ _ = Some _ =>
+               destruct (do_req_frame _ _ _ _ _ _ _ _ Hs) as (E1 & E2 & E3 & E4 & E5 & E6 & E7 & E8 & _);
+               simpl in *; inv_some H; rewrite E1, E5, E7; repeat split; auto; discriminate end);
+        try (match type of Hs with (if ?b then _ else _) = _ => destruct b eqn:Eb end; try discriminate).
+        all: try solve [inv_some Hs; inv_some H; simpl; repeat split; auto; discriminate]. }
+    destruct Hfr as (He & Hc & Hq).
+    assert (Hm : (match l with LEvalBegin t => t :: E | _ => E end) = E) by (destruct l; auto; discriminate).
+    rewrite Hm. unfold K. rewrite He, Hc. split; [exact K1|]. split; [exact K2|]. split; [exact K3|].
+    intros prev t' Hp'. apply (K4 _ _ (Hq _ _ Hp')).
+Qed.
+
+Lemma K_exec : forall c ls s s' E, wfc c -> Inv c s -> K E s -> exec c s ls = Some s' ->
+  K (rev (eval_times ls) ++ E) s'.
+Proof.
+  induction ls as [|l r IH]; simpl; intros s s' E Hw HI HK H; [inv_some H; auto|].
+  destruct (gstep c s l) as [s1|] eqn:Eg; [|discriminate].
+  pose proof (K_step _ _ _ _ _ Hw HI HK Eg) as HK1. pose proof (Inv_step _ _ _ _ Hw HI Eg) as HI1.
+  specialize (IH _ _ _ Hw HI1 HK1 H).
+  destruct l; simpl; try exact IH. rewrite <- app_assoc. simpl. exact IH.
+Qed.
+
+Lemma eval_times_bounds : forall c ls s0 s, wfc c -> Inv c s0 -> exec c s0 ls = Some s ->
+  forall t, In t (eval_times ls) -> c_start c <= t /\ t < c_end c.
+Proof.
+  induction ls as [|l r IH]; simpl; intros s0 s Hw HI Hr t Hin; [tauto|].
+  destruct (gstep c s0 l) as [s1|] eqn:Eg; [|discriminate].
+  pose proof (Inv_step _ _ _ _ Hw HI Eg) as HI1.
+  apply in_app_or in Hin. destruct Hin as [Hin|Hin]; [|apply (IH _ _ Hw HI1 Hr _ Hin)].
+  destruct l; simpl in Hin; try tauto. destruct Hin as [Ht|[]]. subst t0.
+  destruct (evalbegin_latest _ _ _ _ HI Eg) as (a & rest & Hcy & Hct & Hp' & _).
+  destruct HI as (_ & _ & HC). rewrite Hcy in HC. pose proof (chain_decreasing _ _ HC) as (_ & Hf).
+  inversion Hf; subst. split; auto.
+  destruct HI1 as (HP1 & _). unfold phase_inv in HP1. rewrite Hp' in HP1. tauto.
+Qed.
+
+Lemma cycle_times_strict_l : forall c w0 ls s, wfc c -> run c w0 ls s ->
+  decreasing (rev (eval_times ls)) /\ (forall t, In t (eval_times ls) -> c_start c <= t /\ t < c_end c).
+Proof.
+  intros c w0 ls s Hw Hr.
+  assert (HK0 : K [] (init c w0)).
+  { unfold K; simpl. split; [auto|]. split; [tauto|]. split; [tauto|]. intros prev t' Hq; discriminate. }
+  pose proof (K_exec _ _ _ _ _ Hw (Inv_init c w0) HK0 Hr) as (K1 & _). rewrite app_nil_r in K1. split; auto.
+  eapply eval_times_bounds; eauto using Inv_init.
+Qed.
